@@ -27,10 +27,12 @@ type PropConf struct {
 	Packages    []string  `json:"packages"`
 	Functions   []FuncSel `json:"functions"`
 	Ground      []string  `json:"ground,omitempty"`
-	Standins    []string  `json:"standins,omitempty"`
+	StandinConfs []StandinConf `json:"standins,omitempty"`
 	Assumptions []string  `json:"assumptions"`
 	NotDecided  []string  `json:"not_decided,omitempty"`
 	Replay      map[string]string `json:"replay,omitempty"` // function -> replay template name
+	Level       string `json:"level,omitempty"`       // evidence level (default proof)
+	Explanation string `json:"explanation,omitempty"`
 }
 
 type KnownFinding struct {
@@ -165,6 +167,12 @@ func cmdCheck(args []string) int {
 		ev.Assumptions = append(ev.Assumptions, ta...)
 	}
 	ev.Assumptions = append(ev.Assumptions, engineAssumptions...)
+	if conf.Level != "" {
+		ev.Level = conf.Level
+	}
+	if conf.Explanation != "" {
+		cov["explanation"] = conf.Explanation
+	}
 	ev.WallS = time.Since(t0).Seconds()
 	ev.Violations = ctx.violations
 	cov["not_decided"] = conf.NotDecided
